@@ -283,6 +283,94 @@ fn run_seq_inner(b: Base, w: Wrap, ops: &[Op], loc: &str) -> Result<(), (String,
     Ok(())
 }
 
+
+// ---------------------------------------------------------------------------------------------------------------
+// two fixed families outside the op alphabet: (1) listing with key / suffix texts that a pattern language (SQL LIKE, glob,
+// case folding) would treat specially, (2) large, poorly compressible objects read by slices (codec wrappers must serve
+// any in-range slice of an object whose compressed form spans many codec buffers)
+const TRICKY_KEYS: [&str; 9] = ["aa.pack", "b2.PACK", "g8.v1", "h8_v1", "x%y", "q.pack.delta", "r.packx", "Zz.Pack", "k_pack"];
+const TRICKY_EXTS: [&str; 11] = [".pack", ".PACK", "_v1", ".v1", "%", "%y", "", ".delta", "k", "_pack", "ack"];
+
+fn big_payload() -> Vec<u8> {
+    // 96 KiB from a 64-bit LCG: practically incompressible, so the compressed form spans many codec buffers
+    let mut x: u64 = 0x9E3779B97F4A7C15;
+    (0..96 * 1024).map(|_| { x = x.wrapping_mul(6364136223846793005).wrapping_add(1442695040888963407); (x >> 33) as u8 }).collect()
+}
+const BIG_RANGES: [(usize, usize); 8] = [(0, 1), (1, 4095), (4096, 1), (5000, 100), (40000, 2000), (65536, 4096), (98303, 1), (0, 98304)];
+
+pub fn run_special(b: Base, w: Wrap, family: &str, loc: &str) -> Result<(), (String, String)> {
+    cleanup(loc);
+    let r = run_special_inner(b, w, family, loc);
+    cleanup(loc);
+    r
+}
+
+fn run_special_inner(b: Base, w: Wrap, family: &str, loc: &str) -> Result<(), (String, String)> {
+    let err = |s: String| (family.to_string(), s);
+    let ad = match g(|| open(b, w, loc)) {
+        Ok(Ok(a)) => a,
+        Ok(Err(e)) => return Err(err(format!("cannot open back end: {}", e))),
+        Err(p) => return Err(err(format!("panic while opening a new back end: {}", p))),
+    };
+    if family == "tricky-listing" {
+        for (i, k) in TRICKY_KEYS.iter().enumerate() {
+            match g(|| ad.write_object(k, format!("v{}", i).as_bytes()).map_err(|e| e.to_string())) {
+                Ok(Ok(())) => {}
+                x => return Err(err(format!("write({}) = {:?}", k, x))),
+            }
+        }
+        for ext in TRICKY_EXTS {
+            let got = match g(|| ad.list_objects(ext).map_err(|e| e.to_string())) {
+                Ok(Ok(v)) => sorted(v),
+                x => return Err(err(format!("list({:?}) = {:?}", ext, x))),
+            };
+            let want = sorted(TRICKY_KEYS.iter().filter(|k| k.ends_with(ext)).map(|k| k[..k.len() - ext.len()].to_string()).collect());
+            if got != want {
+                return Err(err(format!("list({:?}) returned {:?}; the keys ending byte-for-byte in that suffix, suffix removed, are {:?}", ext, got, want)));
+            }
+        }
+        for (i, k) in TRICKY_KEYS.iter().enumerate() {
+            match g(|| ad.read_object(k, 0, 0).map_err(|e| e.to_string())) {
+                Ok(Ok(d)) if d == format!("v{}", i).as_bytes() => {}
+                x => return Err(err(format!("read({}) = {:?}", k, x))),
+            }
+        }
+    } else {
+        let data = big_payload();
+        match g(|| ad.write_object("big.pack", &data).map_err(|e| e.to_string())) {
+            Ok(Ok(())) => {}
+            x => return Err(err(format!("write(big.pack, 96 KiB) = {:?}", x))),
+        }
+        let check = |ad: &Box<dyn Adapter>, when: &str| -> Result<(), (String, String)> {
+            match g(|| ad.read_object("big.pack", 0, 0).map_err(|e| e.to_string())) {
+                Ok(Ok(d)) if d == data => {}
+                x => return Err(err(format!("{}full read of the 96 KiB object = {:?}", when, x.map(|r| r.map(|d| d.len()))))),
+            }
+            for (o, l) in BIG_RANGES {
+                match g(|| ad.read_object("big.pack", o, l).map_err(|e| e.to_string())) {
+                    Ok(Ok(d)) if d == data[o..o + l] => {}
+                    Ok(Ok(d)) => {
+                        let first_bad = d.iter().zip(data[o..o + l].iter()).position(|(a, b)| a != b);
+                        return Err(err(format!("{}read(big.pack, {}, {}) returned {} bytes that differ from the written slice (first difference at slice index {:?})", when, o, l, d.len(), first_bad)));
+                    }
+                    x => return Err(err(format!("{}read(big.pack, {}, {}) = {:?}", when, o, l, x.map(|r| r.map(|d| d.len()))))),
+                }
+            }
+            Ok(())
+        };
+        check(&ad, "")?;
+        if b == Base::Filesystem || b == Base::SqliteFile {
+            drop(ad);
+            let fresh = match g(|| open(b, w, loc)) {
+                Ok(Ok(a)) => a,
+                x => return Err(err(format!("reopening the location failed: {:?}", x.map(|r| r.map(|_| ())))))
+            };
+            check(&fresh, "after reopen: ")?;
+        }
+    }
+    Ok(())
+}
+
 fn sequences(alpha: &[Op], maxlen: usize) -> Vec<Vec<Op>> {
     let mut out: Vec<Vec<Op>> = vec![];
     let mut frontier: Vec<Vec<Op>> = vec![vec![]];
@@ -319,7 +407,7 @@ fn bounds(b: Base, w: Wrap, thorough: bool) -> (usize, usize) {
 
 pub fn run(thorough: bool, _seed: u64) -> Report {
     let mut bound = String::from(
-        "op sequences over keys {aa.pack, ab.pack, aa.delta}, payloads {empty, \"x\", \"hello world\", 300 binary bytes}, ops {write(k,p), read(k,0,0), read(k,off,len) for (0,1),(3,5),(255,45), list(.pack|.delta|\"\")} = 27 ops (full alphabet F) and an 11-op sub-alphabet R (2 keys x {empty, \"hello world\"}, reads, read(k,3,5), lists); per back end (len F, len R): ",
+        "op sequences over keys {aa.pack, ab.pack, aa.delta}, payloads {empty, \"x\", \"hello world\", 300 binary bytes}, ops {write(k,p), read(k,0,0), read(k,off,len) for (0,1),(3,5),(255,45), list(.pack|.delta|\"\")} = 27 ops (full alphabet F) and an 11-op sub-alphabet R (2 keys x {empty, \"hello world\"}, reads, read(k,3,5), lists); plus per back end two fixed families: tricky-listing (9 keys / 11 suffixes with upper case, `_`, `%`, nested suffixes) and big-slices (one 96 KiB incompressible object, full read + 8 slices, reopen); per back end (len F, len R): ",
     );
     let mut rep_cases: Vec<(Base, Wrap, Vec<Vec<Op>>)> = vec![];
     let full = full_alphabet();
@@ -368,6 +456,21 @@ pub fn run(thorough: bool, _seed: u64) -> Report {
             eprintln!("[adapters] {}: {} sequences in {:?}", name, nseq, t0.elapsed());
         }
     }
+    for b in [Base::Memory, Base::SqliteMem, Base::Filesystem, Base::SqliteFile] {
+        for w in [Wrap::Bare, Wrap::Flate, Wrap::Brotli] {
+            for family in ["tricky-listing", "big-slices"] {
+                n += 1;
+                let name = backend_name(b, w);
+                let key = format!("{}:{}", name, family);
+                rep.case(&key, true);
+                if let Err((class, what)) = run_special(b, w, family, &format!("{}/{}", root, n)) {
+                    let input = json!({"backend": name, "family": family});
+                    *stats.entry(format!("{}@{}", class, name)).or_insert(0) += 1;
+                    classes.fail(&mut rep, &class, &format!("{}:{}", class, key), input, &what);
+                }
+            }
+        }
+    }
     let _ = std::fs::remove_dir_all(&root);
     if !stats.is_empty() {
         eprintln!("[adapters] failing sequences per class@backend: {:?}", stats);
@@ -378,6 +481,16 @@ pub fn run(thorough: bool, _seed: u64) -> Report {
 pub fn replay(case: &Value) -> Value {
     let inp = &case["input"];
     let be = inp["backend"].as_str().and_then(parse_backend);
+    if let (Some((b, w)), Some(family)) = (be, inp["family"].as_str()) {
+        let root = format!("{}-replay", scratch_root());
+        let _ = std::fs::create_dir_all(&root);
+        let r = run_special(b, w, family, &format!("{}/1", root));
+        let _ = std::fs::remove_dir_all(&root);
+        return match r {
+            Ok(()) => json!({"reproduced": false}),
+            Err((class, what)) => json!({"reproduced": true, "class": class, "what": what}),
+        };
+    }
     let ops: Option<Vec<Op>> = inp["ops"].as_array().and_then(|a| a.iter().map(Op::from_json).collect());
     let (b, w, ops) = match (be, ops) {
         (Some((b, w)), Some(o)) => (b, w, o),
